@@ -87,6 +87,26 @@ def run_replay(adapter, payload, timeout=600):
     return {"status": "error", "detail": (p.stderr or p.stdout)[-2000:]}
 
 
+def mnum(v):
+    """z3 numeral string -> float (rationals, negatives, decimals with '?')"""
+    from fractions import Fraction
+    t = str(v).replace("?", "").replace(" ", "")
+    if t.startswith("(-") and t.endswith(")"):
+        t = "-" + t[2:-1]
+    try:
+        return float(Fraction(t))
+    except Exception:
+        return None
+
+
+def mget(model, prefix):
+    """value of the first model constant whose name starts with prefix (fresh names carry a !n suffix)"""
+    for k, v in (model or {}).items():
+        if k == prefix or k.startswith(prefix + "!"):
+            return v
+    return None
+
+
 def model_to_json(model):
     out = {}
     if model is None:
